@@ -249,8 +249,12 @@ def r17e(ctx):
         for q in (FULL, FFT):
             msg = bind(c, repo.member(q, "__init__"))
             ctx.check(msg is None, "R17e", f"{q}.__init__", f"binds Antenna.make_noise's call `{u(c)[:70]}`", msg or "", key_detail=f"make_noise call {sorted(kwargs_of(c))}")
-    ctx.check(len(cs) == 2, "R17e", "pyrex.antenna.Antenna.make_noise", "one constructor call per way of specifying the amplitude (temperature+resistance / rms)", str(len(cs)),
-              key_detail="constructor calls")
+    what = "one constructor call per way of specifying the amplitude (temperature+resistance / rms)"
+    if len(cs) != 2 and any(k.arg is None for c in cs for k in c.keywords):
+        # the amplitude arguments travel in a ** dictionary: which keys it holds on which path is not read here
+        ctx.unknown("R17e", "pyrex.antenna.Antenna.make_noise", what, f"{len(cs)} call(s), amplitude passed as **mapping")
+    else:
+        ctx.check(len(cs) == 2, "R17e", "pyrex.antenna.Antenna.make_noise", what, str(len(cs)), key_detail="constructor calls")
 
 
 def r17f(ctx):
